@@ -586,7 +586,12 @@ func (c *fnCtx) clsElem(cls int) types.Type {
 func (c *fnCtx) clsType(cls int) string {
 	e := c.clsElem(cls)
 	if !(isIntType(e) || isBool(e)) {
-		fail("allocated slice of element type %s", e)
+		// generation 7: slices of strings / of slices of integers that are built element by element; the elements
+		// are immutable values (an allocated slice that is stored as an element is consumed by the store)
+		es, isSlice := e.Underlying().(*types.Slice)
+		if !(c.gen >= 7 && (isString(e) || (isSlice && isIntType(es.Elem())))) {
+			fail("allocated slice of element type %s", e)
+		}
 	}
 	return "List " + paren(leanType(e))
 }
@@ -756,7 +761,7 @@ func (c *fnCtx) emitMem(in ssa.Instruction, ind int, cur map[int]string) bool {
 		if !isIntType(v.Len.Type()) || !isSigned(v.Len.Type()) || !isIntType(v.Cap.Type()) || !isSigned(v.Cap.Type()) {
 			fail("make with a length of type %s", v.Len.Type())
 		}
-		z := zeroOf(c.clsElem(cls))
+		z := zeroValueOf(c.clsElem(cls))
 		if v.Len == v.Cap {
 			c.line(ind, "Option.bind (%smakeSlice %s %s) fun (%s : %s) =>", c.useGoSem3(), z, c.asInt(v.Len), v.Name(), ty)
 		} else {
@@ -777,7 +782,7 @@ func (c *fnCtx) emitMem(in ssa.Instruction, ind int, cur map[int]string) bool {
 		if arr.Len() > 4096 {
 			fail("array of %d elements", arr.Len())
 		}
-		c.line(ind, "let %s : %s := %snewArray %s %d;", v.Name(), ty, c.useGoSem3(), zeroOf(arr.Elem()), arr.Len())
+		c.line(ind, "let %s : %s := %snewArray %s %d;", v.Name(), ty, c.useGoSem3(), zeroValueOf(arr.Elem()), arr.Len())
 		return true
 
 	case *ssa.IndexAddr:
@@ -873,6 +878,13 @@ func (c *fnCtx) emitMem(in ssa.Instruction, ind int, cur map[int]string) bool {
 		name := c.freshName(c.baseName(cur, a.cls))
 		c.line(ind, "Option.bind (%ssetIdx %s %s %s) fun (%s : %s) =>", c.useGoSem3(), m, a.idx, val, name, c.clsType(a.cls))
 		c.setContents(cur, a.cls, name)
+		if cls2, isOwned := c.owned[v.Val]; isOwned {
+			// an allocated slice stored as an element of a slice of slices: handed over, every view of it is stale
+			if cls2 == a.cls {
+				fail("%s is stored into its own memory", v.Val.Name())
+			}
+			c.killClass(cur, v.Val)
+		}
 		return true
 
 	case *ssa.Slice:
@@ -964,6 +976,14 @@ func (c *fnCtx) emitMem(in ssa.Instruction, ind int, cur map[int]string) bool {
 	case *ssa.BinOp:
 		if v.Op != token.QUO && v.Op != token.REM {
 			return false
+		}
+		if c.gen >= 7 && isIntType(v.X.Type()) && types.Identical(v.X.Type().Underlying(), v.Y.Type().Underlying()) && intSuffix(v.X.Type()) == "U64" {
+			op := "quoU64"
+			if v.Op == token.REM {
+				op = "remU64"
+			}
+			c.bind(ind, v, "Nat", fmt.Sprintf("%s%s %s %s", c.useGoSem7(), op, c.operand(v.X), c.operand(v.Y)))
+			return true
 		}
 		if !isIntType(v.X.Type()) || !types.Identical(v.X.Type().Underlying(), v.Y.Type().Underlying()) || intSuffix(v.X.Type()) != "I64" {
 			fail("%s on %s", v.Op, v.X.Type())
